@@ -1339,6 +1339,7 @@ func runC18(ctx *Ctx) {
 	runC18Numbers(ctx)
 	runC18RoundTrip(ctx)
 	runC18Decode(ctx)
+	runC18Irregular(ctx)
 	ctx.res.Exhaustive = true
 	ctx.res.Scope = fmt.Sprintf("every integer width/sign (10 types) x %d boundary numbers (2^k, k in {0,7,8,15,16,31,32,63,64}, both signs, +-1, +-0.5, huge, infinite, -0, low precision); "+
 		"float32/float64 x %d boundary numbers (overflow thresholds and neighbours, subnormal halves, double-rounding ties, infinities); %d fixed probes x every target type of the family (%d types)",
